@@ -105,7 +105,7 @@ class PutSpy(object):
         self.cls.put = self.orig
 
 
-def run_schedule(impl, actors_steps, strategy, line=False, dims=None):
+def run_schedule(impl, actors_steps, strategy, line=False, dims=None, core_kw=None):
     """one controlled execution; returns a result dict"""
     dims = dims or {"maxdata": 4096, "remote": "random", "id_start": 0, "frag": "whole", "empty_rate": 0.0, "noise": []}
     res = {"viol": [], "k1": 0, "trace": None, "switches": 0, "parked": 0, "put_calls": 0, "matrix": {}, "deadlock": None, "line_yields": 0, "preempt_kinds": []}
@@ -119,9 +119,10 @@ def run_schedule(impl, actors_steps, strategy, line=False, dims=None):
             sched.install_task_locks(s)
         spy.actor = s.actor_id
         sim = simdev.SimDevice(rng=random.Random(5), maxdata=dims["maxdata"], remote_ids=dims["remote"])
-        sess = session.Session(impl, sim=sim, checked_locks=False, frag=dims["frag"], empty_rate=dims["empty_rate"], budget=200000, timeouts_cost_time=False)
+        sess = session.Session(impl, sim=sim, checked_locks=False, frag=dims["frag"], empty_rate=dims["empty_rate"], budget=200000, timeouts_cost_time=False, **(core_kw or {}))
         out = sess.call("connect")
         assert out.ok, out
+        sess.core.excl_wait = 0.01        # (an actor found inside the transport is suspended there for good: see MemTransport._excl)
         sess.dev._local_id = dims.get("id_start", 0)
         sim.pick = lambda ready: strategy.choose("dev", list(range(len(ready))), None)
         runners = [scen.Runner(sess, {"dims": dims, "steps": steps}) for steps in actors_steps]
@@ -138,6 +139,8 @@ def run_schedule(impl, actors_steps, strategy, line=False, dims=None):
                 aid = s.actor_id()
                 if aid is not None and io._transport_lock.owner != aid and not s.aborted:
                     nolock.append((aid, kind))
+                    # the verdict is in; do not let the now interleaved byte stream run the schedule into its watchdog
+                    raise RuntimeError("verif: transport call made without holding the transport lock")
                 s.yield_point("transport")
             sess.core.on_call = on_call
 
@@ -165,6 +168,7 @@ def run_schedule(impl, actors_steps, strategy, line=False, dims=None):
                 aid = s.actor_id()
                 if aid is not None and io._transport_lock.owner != aid and not s.aborted:
                     nolock.append((aid, "call"))
+                    raise RuntimeError("verif: transport call made without holding the transport lock")
                 await s.yield_point("transport")
             sess.transport.yield_hook = hook
 
